@@ -55,19 +55,31 @@ def run_variant(m):
         shutil.rmtree(scratch, ignore_errors=True)
 
 def main():
-    args = [a for a in sys.argv[1:] if not a.startswith("--")]
+    jsonOut = None
+    argv = sys.argv[1:]
+    if "--json" in argv:
+        i = argv.index("--json")
+        jsonOut = argv[i + 1]
+        argv = argv[:i] + argv[i + 2:]
+    args = [a for a in argv if not a.startswith("--")]
     muts = json.load(open(args[0]))
     flt = args[1] if len(args) > 1 else ""
     bad = 0
+    results = []
     for m in muts:
         if flt and flt not in m["name"] and flt != m["prop"]:
             continue
         st, info = run_variant(m)
         good = st in ("CAUGHT", "OK-SILENT")
+        results.append({"name": m["name"], "kind": m.get("kind", "mutant"), "result": st, "expected_rule": m.get("expect", "")})
         if not good:
             bad += 1
         print(f"{m['prop']} {m.get('kind','mutant'):6} {m['name']}: {st}" + ("" if good else "\n    " + info.replace("\n", "\n    ")))
         sys.stdout.flush()
+    if jsonOut:
+        json.dump({"variants": len(results), "mutants_reported": sum(1 for r in results if r["result"] == "CAUGHT"),
+                   "benign_silent": sum(1 for r in results if r["result"] == "OK-SILENT"), "failed": bad, "results": results},
+                  open(jsonOut, "w"), indent=1)
     return 1 if bad else 0
 
 sys.exit(main())
